@@ -38,7 +38,7 @@ def coq_fst(spec, sym, st=None):
 
 STATES = ["s0", "s1", "s2", "s3"]
 INS = ["a", "b"]
-OUTS = ["x", "y", "a"]
+OUTS = ["x", "y", "a", "xy"]      # "xy" vs "x","y": output words that spell the same text must stay distinct
 
 
 def _silence_eps_cycles(states, trans):
